@@ -525,6 +525,8 @@ func parseSearchQuery(query, countryCode string, withLogin bool) ([][]string, []
 			}
 		}
 
+		// The quote has been opened by the current rune: it belongs to the next token, not to the one being emitted.
+		var opened bool
 		if curr == QUO {
 			if ctx.quo {
 				// End of the quoted string. Close the quote.
@@ -536,7 +538,7 @@ func parseSearchQuery(query, countryCode string, withLogin bool) ([][]string, []
 				}
 				// Start of the quoted string. Open the quote.
 				ctx.quo = true
-				ctx.unquote = true
+				opened = true
 			}
 			curr = ORD
 		}
@@ -578,7 +580,7 @@ func parseSearchQuery(query, countryCode string, withLogin bool) ([][]string, []
 		}
 
 		if emit {
-			if ctx.quo {
+			if ctx.quo && !opened {
 				return nil, nil, fmt.Errorf("unterminated quoted string at or near %d", pos)
 			}
 
@@ -609,6 +611,9 @@ func parseSearchQuery(query, countryCode string, withLogin bool) ([][]string, []
 			ctx.preOp = ctx.postOp
 			ctx.postOp = NONE
 			ctx.unquote = false
+		}
+		if opened {
+			ctx.unquote = true
 		}
 
 		prev = curr
